@@ -74,6 +74,12 @@ Spec == Init /\ [][Next]_vars
 MarshalCounts == last.op = "marshal" =>
     /\ Len(last.grew) = last.n /\ last.grew = SubSeq(last.frame, 1, last.n)
     /\ (last.err = "nil" => last.n = Len(last.frame))
+\* the code's two-write Marshal is an instance of the split-independent form used by trace validation
+TwoWritesAreAny == last.op = "marshal" =>
+    \E ver \in Vers, body \in Bodies : /\ last.frame = Frame(ver, body)
+        /\ \E c \in {<< [offered |-> H, k |-> k1, e |-> TRUE] >> : k1 \in 0..H}
+                 \cup {<< [offered |-> H, k |-> H, e |-> FALSE], [offered |-> Len(body), k |-> k2, e |-> e2] >> : k2 \in 0..Len(body), e2 \in BOOLEAN} :
+              MarshalAnyOK(ver, body, c, [n |-> last.n, err |-> last.err, written |-> last.grew])
 \* the relation is never disabled for the algorithm: every Unmarshal step above was taken (no deadlock of DoUnmarshal)
 \* result independent of how the reader chunks the bytes
 ChunkIndependent == last.op = "unmarshal" => last.obs = last.whole
